@@ -45,7 +45,7 @@ def x_c20(run):
         if not thorough and bs > 262144 and rnd.random() < 0.6:
             szname, bs = "64K", 65536
         flags = dict(size=szname, bc=rnd.random() < 0.5, sc=rnd.random() < 0.4, l=rnd.choice([None, 0, 1, 2, 3, 5, 9]),
-                     c=rnd.choice([None, 1, 2, 4]))
+                     c=rnd.choice([None, 1, 2, 4, 0, -1]))
         flen = rnd.choice([0, 1, 100, bs - 1, bs, bs + 1, 2 * bs, 2 * bs + 17, rnd.randrange(3 * bs)])
         lvl = LEVELS[flags["l"] or 0]
         kind = rnd.choice([0, 1, 2, 3, 4, 5, 6, 7, 7] if lvl < 4096 else [0, 2, 5, 6, 7])
@@ -65,7 +65,7 @@ def x_c20(run):
         cases.append((i, flags, tok, flen, mode, stdin, bs, lvl))
     model_lines, infos = [], []
     for (i, fl, tok, flen, mode, stdin, bs, lvl) in cases:
-        conc = fl["c"] if fl["c"] else 0
+        conc = fl["c"] if fl["c"] and fl["c"] > 0 else 0
         model_lines.append(f"W -1 A:bc={int(fl['bc'])},bs={bs},cc={int(not fl['sc'])},lvl={lvl},conc={conc} rf:{tok}:0:-1:0 c")
     model = run.run_driver(DRIVER, model_lines) if run.lake_ok else None
     spec_req, spec_exp = [], []
